@@ -244,6 +244,20 @@ def gen_mt_xz(rng, nblocks=3, bsize=(300, 2500), cid=None):
         bounds.append((pos, pos + len(b))); pos += len(b)
     return f, bytes(exp), bounds
 
+def gen_many_blocks(rng, nblocks, cid=None):
+    """a Stream with many tiny Blocks: the Index has a multi-byte Number of Records and is long"""
+    cid = cid if cid is not None else rng.choice([0, 1, 4])
+    chain = [{'id': 'lzma2', 'dict_size': 4096, 'lc': 3, 'lp': 0, 'pb': 2, 'mode': lzma.MODE_FAST, 'nice_len': 32, 'mf': lzma.MF_HC4}]
+    out = bytearray(stream_header(cid)); recs = []; exp = bytearray()
+    cache = {}
+    for i in range(nblocks):
+        data = bytes([65 + (i * 7 + rng.randrange(3)) % 26]) * rng.choice([1, 1, 2, 3])
+        if data not in cache: cache[data] = block(data, chain, cid, rng)
+        b, unp, unc = cache[data]
+        out += b; recs.append((unp, unc)); exp += data
+    idx = index(recs)
+    return bytes(out + idx + stream_footer(cid, len(idx))), bytes(exp), len(idx)
+
 # ---------------------------------------------------------------- malformed
 def mutate(rng, f):
     """field-aware-ish and blind mutations of a valid file"""
